@@ -329,11 +329,25 @@ fn build(cx: &Cx, e: &BodyExpr) -> (Incr<i64>, Hid) {
             let scope = cx.scope;
             let hb = cx.hb;
             let export = cx.export;
+            // a top-level memoised constructor for the local one to call on a miss (its node
+            // belongs to the top level whatever scope the call comes from)
+            let top: Option<(usize, MemoFn)> = cx.cap.memos.first().cloned();
             // memoised inside the closure: the table and its nodes belong to this run of the bind.
             // The function is also handed to the driver, which may call it later from the top level.
             let underlying = move |key: i64| -> Incr<i64> {
                 let w = weak.upgrade().expect("world gone");
                 w.crash_point();
+                if let Some((mi, ftop)) = &top {
+                    let (n0, hid0, fresh0, prev0) = memo_call(&w, *mi, ftop, key);
+                    let ctx = w.cur_ctx();
+                    if ctx == Ctx::Top && hid0 != usize::MAX {
+                        let mut nodes = w.nodes.borrow_mut();
+                        if nodes[hid0].h.is_none() {
+                            nodes[hid0].h = Some(NodeH::I(n0.clone()));
+                        }
+                    }
+                    w.log(Ev::Act { ctx, act: Act::MemoCall { m: *mi, key: key.rem_euclid(3), hid: hid0, fresh: fresh0, prev_alive: prev0 } });
+                }
                 let hid = w.next_hid();
                 let mut lg = logged(&w, hid, vec![]);
                 let n = src.map(move |x: &i64| {
